@@ -2,6 +2,7 @@ import VermouthModel.C03
 import VermouthModel.C03_Text
 import VermouthModel.C03_Top
 import VermouthModel.C03_Sort
+import VermouthModel.C03_Hist
 import Generated.C16Layout
 import Generated.C02Tables
 open Proto C03
@@ -142,14 +143,19 @@ def encTopParsed (p : TopParsed) : String :=
   encList [encList (p.defines.map encLines), encLines p.includes,
            encList (p.molecules.map fun g => encList [encChars g.1, encNat g.2])]
 
-def textOp (dedup : Bool) (molname : String) (conect : Bool) (sys : List TMol) (header defines : List (List Char))
+def textOp (pipeline : Bool) (dedup : Bool) (molname : String) (conect : Bool) (sys0 : List TMol)
+    (header defines : List (List Char))
     (cites : List (List (List Char))) (params : List String) (paths : Option (List (String × String)))
     (given : Option (List String)) : String :=
   let names : List String := match given with
     | some ns => ns
-    | none => (nameMolTypes (shareMolType npClose) dedup (sys.map (·.mol))).map (molName molname)
-  let inp : TopIn := { sys := sys, names := names.map String.toList, cites := cites, header := header, defines := defines,
-                       params := params, itpPaths := paths }
+    | none => (nameMolTypes (shareMolType npClose) dedup (sys0.map (·.mol))).map (molName molname)
+  let inp0 : TopIn :=
+    { sys := sys0, names := names.map String.toList, cites := cites, header := header,
+      defines := defines, params := params, itpPaths := paths }
+  -- `pipe`: martinize2's order (names of the unsorted molecules, then SortMoleculeAtoms(), then the writers)
+  let inp : TopIn := if pipeline then pipelineIn dedup molname inp0 else inp0
+  let sys := inp.sys
   let topPart := match writeTopology inp with
     | .error e => "err " ++ encTopErr e
     | .ok o =>
@@ -163,6 +169,24 @@ def textOp (dedup : Bool) (molname : String) (conect : Bool) (sys : List TMol) (
     | .ok ls => "ok " ++ encLines ls
     | .error e => "err " ++ e.toString
   topPart ++ " pdb " ++ pdbPart ++ " gro " ++ encLines (groLines C16.Layout.gro sys)
+
+/-! ### molecule objects (C03_Hist): request  heap [ mol* ] [ ev* ],  ev := [ 0 dedup mn [ obj* ] ] | [ 1 [ obj* ] ]
+    response: one entry per write event, joined by ' | ':  names L groups L includes L src L  |  keyerror -/
+
+def evOf (t : Tok) : Option Ev := do
+  match ← t.list? with
+  | [Tok.int 0, d, mn, ss] => pure (Ev.name ((← d.nat?) != 0) (← mn.nat?) (← nats? ss))
+  | [Tok.int 1, ss] => pure (Ev.write (← nats? ss))
+  | _ => none
+
+def encMName (n : MName) : String := encList [encNat n.1, encNat n.2]
+
+def encHeapOut : Option (TopOut MName) → String
+  | none => "keyerror"
+  | some o =>
+    "groups " ++ encList (o.groups.map fun g => encList [encMName g.1, encNat g.2])
+      ++ " includes " ++ encList (o.includes.map encMName)
+      ++ " src " ++ encList (o.itps.map fun g => encList [encMName g.1, encNat g.2])
 
 def handle (_ : Unit) (toks : List Tok) : Unit × String :=
   let r : Option String :=
@@ -192,7 +216,34 @@ def handle (_ : Unit) (toks : List Tok) : Unit × String :=
         let givenV ← match given with
           | Tok.none => some none
           | t => do pure (some (← strs? t))
-        pure (textOp dedup (← mn.str?) conect sys (← charsOf hd) (← charsOf defs) cites (← strs? ps) pathsV givenV)
+        pure (textOp false dedup (← mn.str?) conect sys (← charsOf hd) (← charsOf defs) cites (← strs? ps) pathsV givenV)
+    | [Tok.str "pipe", d, mn, c, ms, hd, defs, cs, ps, paths] => do
+        let dedup := (← d.nat?) != 0
+        let conect := (← c.nat?) != 0
+        let sys ← (← ms.list?).mapM tmolOf
+        let cites ← (← cs.list?).mapM charsOf
+        let pathsV ← match paths with
+          | Tok.none => some none
+          | t => do
+              let l ← (← t.list?).mapM (namedOf Tok.str?)
+              pure (some l)
+        pure (textOp true dedup (← mn.str?) conect sys (← charsOf hd) (← charsOf defs) cites (← strs? ps) pathsV none)
+    | [Tok.str "sortmol", as, tg, ns] => do
+        -- SortMoleculeAtoms(sortby_attrs, target_attr).run_molecule: comparable flag, node keys in the new
+        -- order, value of the target attribute per node
+        let attrs ← strs? as
+        let target ← tg.optStr?
+        let nodes ← (← ns.list?).mapM atomOf
+        let r := sortMoleculeAtoms attrs target nodes
+        let tv := match target with
+          | some k => encList (r.map fun a => encVal (getAttr a k))
+          | none => "-"
+        pure (encBool (comparable attrs nodes) ++ " " ++ encList (r.map fun a => encInt a.key) ++ " " ++ tv)
+    | [Tok.str "heap", ms, es] => do
+        let mols ← (← ms.list?).mapM molOf
+        let evs ← (← es.list?).mapM evOf
+        let h : Heap := { mols := mols, names := mols.map fun _ => none }
+        pure (" | ".intercalate ((runEvents (shareMolType npClose) h evs).map encHeapOut))
     | [Tok.str "sorted", ns] => do
         let nodes ← (← ns.list?).mapM atomOf
         pure (encList ((sortedNodes nodes).map fun a => encInt a.key))
